@@ -262,11 +262,10 @@ CLAIMED["C09"] = (
     "the result kind of its operand (string / bytes / tuple under is_tuple() / lazy list-like iterable); (S5) the only errors "
     "slice builds are a non-integer bound (propagated conversion), a zero step, and an operand that cannot be sliced - none "
     "inside an arm of a sliceable kind, no unwrap inside a slicing closure; (S6) both helpers get the same converted start / "
-    "stop in every arm.  These are necessary conditions: an arm that leaves the common pipeline (a 'contiguous bytes' fast "
+    "stop in every arm; (S7) inside the helpers an omitted bound is never encoded as a value an explicit bound can take and then compared with it; (S8) an unknown length is never taken for zero; (S9) subscripts of text count characters.  These are necessary conditions: an arm that leaves the common pipeline (a 'contiguous bytes' fast "
     "path with slice::get, a dropped step_by, a byte length for text, a list for a tuple) selects other elements than its "
     "siblings.  NOT decided: the integer arithmetic inside get_offset_and_len / range_step_backwards, i.e. which elements "
-    "a given (len, start, stop, step) selects (on the pinned tree a negative step with a stop that resolves to index 0 still "
-    "includes element 0, unlike Python - observed, listed in DESIGN.md section 8, no rule decides it), and the negative-index "
+    "a given (len, start, stop, step) selects (after the fixes of DESIGN.md section 5 a scratch enumeration of 133056 combinations agrees with Python; no check decides that), and the negative-index "
     "normalisation of subscripts.",
     "DESIGN.md §3 C09",
     "Partial claim (shape of the arms, not the selected elements).")
@@ -286,7 +285,7 @@ CLAIMED["C10"] = (
     "lexed by text comparison: '-' trims for block and variable ends, trim_blocks applies at block ends only and not behind a "
     "marker; (E5) the newline skipper advances by one byte, behind a newline test, under trim_blocks, outside loops; (E6) the "
     "pending-trim flag is cleared where it is consumed; (E7) the marker handed to a marker-consuming function is decoded from "
-    "the text, never a constant; (E8) no default delimiter literal in lexer code.  These are necessary conditions that "
+    "the text, never a constant; (E8) no default delimiter literal in lexer code; (E9) a line ending is consumed CR first in every consumer; (E10) every lstrip site asks the line-start gate; (E11) lexer code that singles out the space as indentation knows the tab.  These are necessary conditions that "
     "regressions of the rule interaction break ('+' folded into the default case, trim_blocks after variable tags, lstrip "
     "for variable tags, a marker ignored at comment / raw ends).  NOT decided: which characters each primitive removes (CR/LF "
     "order, start-of-line detection), the delimiter search (leftmost-longest tie-breaking among prefix-sharing custom "
@@ -306,7 +305,7 @@ CLAIMED["C03"] = (
     "names (loop, caller) are bound where the engine binds them, tracker scopes end where frames end, every free name of a "
     "macro is enclosed, statement lists that run only behind a conditional jump (if / elif / else bodies, for-else) are "
     "walked in a scope of their own so that an assignment in an untaken branch does not hide an outer variable from a macro, "
-    "and the loop variable is resolved frame by frame.  NOT decided: rendered output as a function of run-time values - "
+    "and the loop variable is resolved frame by frame; the rules of C04 (an expression over literals gives what it gives over variables); (L1) an engine iterator that knows its remaining length reports it as an exact size hint (loop.length / revindex / last are defined); (L2) loop.index / index0 / revindex / revindex0 / depth / depth0 / first stand in their documented relations (symbolic extraction from MIR).  NOT decided: rendered output as a function of run-time values - "
     "loop.index / revindex / previtem / nextitem arithmetic, whether an else branch runs, macro argument binding, filters "
     "and tests (no reference interpreter: that is another technique).",
     "DESIGN.md §3 C03",
@@ -344,6 +343,23 @@ ROUND9 = {
     "C20": "(A9) the template-store rules of C15 (clear empties every tier, a lookup records only loaded templates) are a clause for fast reload.",
 }
 
+ROUND11 = {
+    "C01": "(P21) assignment targets: what the parser stores where the generator calls compile_assignment is built by target parsers only; (P22) the parser's argument limit leaves room for the generator's narrowing assert.",
+    "C02": "(S10) the escaper examines every byte (iteration over the input, or an index that advances by one).",
+    "C04": "(K3) over all of compiler::*; (K13) folding never decides which statements are compiled.",
+    "C05": "(B12) the closure installed for a frame is fresh, the one taken from it before, or None.",
+    "C06": "(I12) every referenced template name goes through the path-join callback against the current template's name.",
+    "C07": "(V15) a defaulted unknown length only sizes buffers; (V16) values are sorted with a stable sort.",
+    "C12": "(M12) both operands of ==, <, in, ~ are asked about undefined-ness in every dispatch arm.",
+    "C13": "(G9) every path of the render family passes the interpreter or an error exit.",
+    "C14": "(F12) location records do not depend on the instruction kind; (F13) a reported byte range is a recorded span.",
+    "C15": "(U12) add_x and remove_x address the same key.",
+    "C16": "(T11) a binary-searched field is sorted where its type is built; (T12) composite serializers record only what they are given.",
+    "C18": "(W10) statements that run only behind a conditional jump are walked in a scope of their own.",
+    "C19": "(O8) also for closures that captured the formatter.",
+    "C20": "(A10) the poll answers `no reload` only after reading the flag.",
+}
+
 NOT_APPLICABLE = {
 }
 
@@ -361,6 +377,8 @@ def main():
                 text = text + " Round 8: " + ROUND8[p]
             if p in ROUND9:
                 text = text + " Round 9: " + ROUND9[p]
+            if p in ROUND11:
+                text = text + " Rounds 10-11: " + ROUND11[p]
             checks.append({
                 "property_id": p,
                 "quick_cmd": "./check %s --tier quick" % p,
